@@ -37,7 +37,7 @@ theorem inv5_unbind {Γ : Gam} {μ : AMap} {st : SState} {g : Array Value} {l : 
     Inv5 s0 CS ((b, k) :: Γ) μ (st.unbind ⟨b, .global k⟩) g l m out ∧ Grow μ st m.heap μ (st.unbind ⟨b, .global k⟩) m.heap := by
   have hst : (st.unbind ⟨b, .global k⟩).store = st.store := by simp [SState.unbind, isGlobalSlot]
   have hgr : Grow μ st m.heap μ (st.unbind ⟨b, .global k⟩) m.heap := grow_store_eq hst
-  refine ⟨⟨?_, ?_, hinv.hr.store_eq hst, by simpa [SState.unbind, isGlobalSlot] using hinv.out, hinv.pool⟩, hgr⟩
+  refine ⟨⟨?_, ?_, hinv.hr.store_eq hst, by simpa [SState.unbind, isGlobalSlot] using hinv.out, hinv.pool, hinv.mok⟩, hgr⟩
   · intro b' k' hm v hv
     simp only [SState.unbind, isGlobalSlot, ↓reduceIte] at hv
     rcases List.mem_cons.mp hm with he | hm'
@@ -72,7 +72,7 @@ theorem ps5_succ (f : Nat) (ih : PAll5 s0 CS C f) : PS5 s0 CS C (f + 1) := by
       · exact ⟨fun b k hm w hw => by
             obtain ⟨mw, h1, h2⟩ := hinv1.relG b k hm w hw
             exact ⟨mw, h1.grow hgl, h2⟩,
-          hmv.grow hgl, hinv1.hr.store_eq hst, hinv1.out, hinv1.pool⟩
+          hmv.grow hgl, hinv1.hr.store_eq hst, hinv1.out, hinv1.pool, hinv1.mok⟩
     | err er st1 => rw [hr] at h; exact h
     | fuel => trivial
     | unspec _ => trivial
